@@ -97,6 +97,9 @@ func checkC09(c *C09Case, st *VStats) *VFailure {
 						apiUnprot = append(apiUnprot, ep.Peer+" is not protected on "+dd.dir)
 					} else {
 						for _, e := range dd.ents {
+							if ok, why := e.Conn.TextAgreesWithAPI(); !ok {
+								return vfail("exposure entry of %s (%s): the printed connection (used by every format) does not encode the returned value: %s", ep.Peer, dd.dir, why)
+							}
 							des := "potential"
 							if e.Entire {
 								des = "entire-cluster"
